@@ -571,13 +571,48 @@ def r12(ctx, prog):
         lps = [st for st in g.stmts if st and st['k'] == 'ForStmt' and st.get('init') is not None]
         if len(lps) != 1:
             raise AnalysisBroken('%s: day scan not found' % name)
-        start = None
+        # the day index the scan starts with equals the number of days the candidate instant was advanced before the loop, on every way into the loop
+        iv = None
         for x in g.walk(lps[0]['init']):
             if g.stmts[x]['k'] == 'DeclStmt' and 'init' in g.stmts[x]['decls'][0]:
-                start = (g.s(g.stmts[x]['decls'][0]['init']) or {}).get('cv')
+                iv = g.stmts[x]['decls'][0]
+        adv = [st for st in g.stmts if st and st['k'] == 'CompoundAssignOperator' and st.get('op') == '+=' and g.path(st['ch'][0]) == g.params[1]['n'] and
+               (g.s(st['ch'][1]) or {}).get('cv') == 86400 and st['i'] not in set(g.walk(lps[0]['i']))]
+        lp_pt = g.cfg.point_of(lps[0]['cond']) if lps[0].get('cond') is not None else None
+
+        def advances_with(def_point):
+            """pre-loop advances of the candidate that execute exactly when the definition at def_point does (same controlling edges)"""
+            key = lambda p_: sorted((c, k) for c, k, b in g.cfg.controlling_branches(p_))
+            return [a for a in adv if def_point is not None and key(q.pt(g, a)) == key(def_point)]
+        okal, why = False, 'loop start not understood'
+        if iv is not None:
+            s0 = g.s(g.strip_casts(iv['init']))
+            if s0 is not None and s0.get('cv') is not None or (g.s(iv['init']) or {}).get('cv') is not None:
+                c0 = (g.s(iv['init']) or {}).get('cv')
+                uncond = [a for a in adv if lp_pt is not None and g.cfg.dominates(q.pt(g, a), lp_pt)]
+                okal = c0 == len(uncond) and len(adv) == len(uncond)
+                why = 'the scan starts at day offset %s, the candidate was advanced %d day(s) before the loop' % (c0, len(uncond))
+            elif s0 is not None and s0['k'] == 'DeclRefExpr' and s0.get('dk') == 'Var':
+                defs = rd.local_defs(g, s0['d'])
+                okal = bool(defs)
+                for d in defs:
+                    v = (g.s(d['rhs']) or {}).get('cv') if d['rhs'] is not None else None
+                    if d['kind'] not in ('init', '=') or v is None:
+                        okal = False
+                        continue
+                    if v == 0:
+                        continue
+                    if len(advances_with(d['point'])) != v:
+                        okal = False
+                # every pre-loop advance is accounted for by a definition of the start variable
+                for a in adv:
+                    if not any(d['point'] is not None and a in advances_with(d['point']) for d in defs):
+                        okal = False
+                why = 'the start offset %s is set together with the matching advance of the candidate' % s0.get('n')
         n += 1
-        ctx.ob('C20.R12', '%s|scan-aligned' % g.name, start == 0, 'the scan starts at day offset 0 together with today\'s candidate instant' if start == 0 else
-               'the scan starts at day offset %s while the candidate instant starts at today: every candidate is judged by the calendar entry of a different day' % start, where=g.loc(lps[0]['i']))
+        ctx.ob('C20.R12', '%s|scan-aligned' % g.name, okal, why if okal else
+               'the day index the scan starts with does not match how far the candidate instant was advanced before the loop (%s): every candidate is judged by the calendar '
+               'entry of a different day' % why, where=g.loc(lps[0]['i']))
     # clock read
     for g in prog.fn(AL + '::GetCurrentUtcTime'):
         for blk in g.cfg.blocks.values():
